@@ -350,6 +350,10 @@ where
 		tx_id_string = tx_id.to_string();
 	} else if let Some(tx_slate_id) = tx_slate_id {
 		tx_id_string = tx_slate_id.to_string();
+	} else {
+		// neither a log id nor a slate id: the lookup below would match every entry of the
+		// account and cancel it when it is the only one
+		return Err(Error::TransactionDoesntExist(tx_id_string));
 	}
 	let tx_vec = updater::retrieve_txs(
 		wallet,
